@@ -74,7 +74,15 @@ func hIsPrefixPath(p, q string) bool { // p is a proper path-prefix of q
 // once or twice, symbolic quantities; all display modes.
 func Harness_balance_modes() {
 	F := verifBound("F", 2)
-	C := verifBound("catalogue", len(hCatalogue))
+	catalogue := hCatalogue
+	if verifBound("deep", 0) == 1 {
+		// category paths of up to nine segments (single-letter segments keep pre-order = string order)
+		catalogue = []string{"a/b/c/d/e/f/g/h/i", "a/b/c/d/e/f/g/h/j", "a/b/c/d/e/f/g/k", "a/b/c/d/x", "a/b/c/d/e/f/g", "b/c/d/e/f/g/h/i/j"}
+	}
+	C := verifBound("catalogue", len(catalogue))
+	if C > len(catalogue) {
+		C = len(catalogue)
+	}
 	// choose a strictly increasing index sequence: a set of distinct foods
 	var foods []string
 	next := 0
@@ -83,7 +91,7 @@ func Harness_balance_modes() {
 		if c == C-next {
 			break
 		}
-		foods = append(foods, hCatalogue[next+c])
+		foods = append(foods, catalogue[next+c])
 		next += c + 1
 	}
 	verifAssume(len(foods) >= 1)
